@@ -1,7 +1,7 @@
 """C14 — Bezier evaluate, derivative, split and conversions obey the Bernstein identities (DESIGN §6 C14)."""
 import core
 
-OPS = ["bez_eval", "bez_deriv", "bez_split", "bez_conv", "bez_matrix", "bez_mul", "bez_circle"]
+OPS = ["bez_eval", "bez_deriv", "bez_split", "bez_conv", "bez_matrix", "bez_mul", "bez_circle", "bez_tangent"]
 
 
 def key(rec):
@@ -21,7 +21,7 @@ def run(ctx):
                 "derivative operator is the formal derivative (exact Taylor identity), that the split halves "
                 "re-parametrise the curve on [0,t] and [t,1] and meet at its point, and that elevation, reversal, "
                 "segment conversion and matrix action preserve the curve; every record is one real call on the four "
-                "curve types (evaluate, evaluate_derivative, split, matrix, into_cubic/From, reversed/reverse, "
+                "curve types (evaluate, evaluate_derivative, normalized_tangent, split, matrix, into_cubic/From, reversed/reverse, "
                 "into_2d/3d, flips, vector/array/tuple round trips, Mat2/3/4 * curve in both layouts) on exact "
                 "rationals, recomputed by TLC (split via de Casteljau levels, independent of the code's closed "
                 "forms); unit (quarter) circle sampled on f64/f32 and checked by TLC in scaled integers")
